@@ -500,7 +500,7 @@ func runShape(s shape, via string) (msg, kind string, nontrivial bool) {
 			}
 		case "bin":
 			b := f.Interface().(Bin)
-			if !bytes.Equal(b.Got, v) || b.Calls != 1 {
+			if !bytes.Equal(b.Got, v) || b.Calls < 1 {
 				return fmt.Sprintf("field %d (BinaryUnmarshaler) got %q after %d calls, served %q", i, b.Got, b.Calls, v), "field-value", true
 			}
 		case "binptr":
